@@ -116,16 +116,24 @@ fn main() {
             let _ = write_replay(&root, &id, f);
             continue;
         }
-        // confirm by re-executing exactly this case before reporting
-        match crate::core::par::catch(|| (prop.replay)(&ctx, &f.case)) {
-            Ok(Ok(fs)) if fs.iter().any(|g| g.key == *key) => {}
-            Ok(Ok(fs)) => machinery(&format!(
-                "nondeterminism: finding key={key} did not reproduce when its case was re-executed (got {:?}); detail: {}",
-                fs.iter().map(|g| g.key.clone()).collect::<Vec<_>>(),
-                f.detail
-            )),
-            Ok(Err(e)) => machinery(&format!("replay of key={key} failed: {e}")),
-            Err(p) => machinery(&format!("replay of key={key} panicked in the harness: {p}")),
+        // confirm by re-executing exactly this case before reporting.  Code under test that is
+        // itself nondeterministic (e.g. depends on HashMap iteration order) may need more than one
+        // attempt; a finding that never reproduces is a machinery error, never a verdict.
+        let mut confirmed = false;
+        let mut last = String::new();
+        for _attempt in 0..5 {
+            match crate::core::par::catch(|| (prop.replay)(&ctx, &f.case)) {
+                Ok(Ok(fs)) if fs.iter().any(|g| g.key == *key) => {
+                    confirmed = true;
+                    break;
+                }
+                Ok(Ok(fs)) => last = format!("got {:?}", fs.iter().map(|g| g.key.clone()).collect::<Vec<_>>()),
+                Ok(Err(e)) => machinery(&format!("replay of key={key} failed: {e}")),
+                Err(p) => machinery(&format!("replay of key={key} panicked in the harness: {p}")),
+            }
+        }
+        if !confirmed {
+            machinery(&format!("nondeterminism: finding key={key} did not reproduce when its case was re-executed 5 times ({last}); detail: {}", f.detail));
         }
         let path = write_replay(&root, &id, f).unwrap_or_else(|e| machinery(&e));
         violations += 1;
